@@ -71,6 +71,15 @@ class Leaf(KDDataset):
             ctx["y_idx"] = i
         return ("y", self.tag, i)
 
+    def conf_of(self, i):
+        """a non-integer per-sample item (confidence / weight), exactly representable in float32"""
+        return (sum(map(ord, str(self.tag))) % 64) * 128 + i + 0.5
+
+    def getitem_conf(self, idx, ctx=None):
+        i = self._norm(idx)
+        self.log.append(("conf", self.tag, i, id(ctx) if ctx is not None else None))
+        return self.conf_of(i)
+
     def getall_class(self):
         if self.getall_kind == "list":
             return self.classes if self.alias_getall else list(self.classes)
